@@ -173,7 +173,7 @@ class Case:
     """
 
     def __init__(self, cid, prop, config, declare, fn, claims, timeout=120, hooks=None, normals=None,
-                 noninterference=None, notes=None, adjusted=None, env=None, replay_scales=None):
+                 noninterference=None, notes=None, adjusted=None, env=None, replay_scales=None, sat_note=None):
         self.id, self.prop, self.config = cid, prop, config
         self.declare, self.fn, self.claims = declare, fn, claims
         self.timeout = timeout
@@ -189,6 +189,7 @@ class Case:
         # inputs, the replay is repeated with those variables scaled and the error measured relative to the NATURAL SCALE
         # of each claimed array (the property's notion of equality) -- for deviations that only matter at small scales
         self.replay_scales = replay_scales
+        self.sat_note = sat_note    # what a non-reproducing sat verdict means for this case (default: encoding suspect)
 
 
 def _flat(x):
@@ -650,7 +651,7 @@ def run_case(case, seed=0, solver_timeout_ms=60000, cvc5=False, selfcheck_points
         res["detail"] = f"z3 sat; replay on real float64 code: {best['worst_label']} lhs={best['lhs']:.12g} rhs={best['rhs']:.12g}"
     else:
         res["status"] = "inconclusive"
-        res["detail"] = "z3 sat but the model did not reproduce on the real code (encoding suspect)"
+        res["detail"] = getattr(case, "sat_note", None) or "z3 sat but the model did not reproduce on the real code (encoding suspect)"
     return res
 
 
